@@ -60,6 +60,33 @@ def proof_coverage(ck, prefixes, extra=None):
     return cov
 
 
+# properties about dispatch results: when the correspondence breaks on scripts that show no wrong call, a
+# wider family of registries (lattices, every presentation, random record order, all calls) is searched
+ESCALATE = ("C01", "C02", "C03", "C04", "C06", "C08", "C17")
+
+
+def escalate(ck, n=1500):
+    rng = random.Random(repr((ck.seed, ck.prop, "escalate")))
+    cand = []
+    for i in range(n):
+        pol = rng.choice(["plain", "map", "fast", "indirect", "proj"])
+        reg = gen.gen_registry(rng)
+        while not any(len(p) > 1 for p in reg.parents) and rng.random() < 0.85:
+            reg = gen.gen_registry(rng)
+        style = rng.choice(gen.STYLES)
+        lines, _ = gen.emit_script(rng, reg, pol, style=style, dump=False, callnext=(ck.prop == "C03"), shuffle=True)
+        cand.append(("e%d-%s-%s-%s" % (i, pol, style, reg.family), lines))
+    log("escalating: %d lattice registries in random record order against the specification oracle" % n)
+    obad = verif.oracle_check(ck.exe, cand)
+    if not obad:
+        return None
+    name = obad[0][0]
+    lines = dict(cand)[name]
+    small = verif.shrink(lines, lambda ls: bool(verif.oracle_check(ck.exe, [(name, ls)])))
+    o2 = verif.oracle_check(ck.exe, [(name, small)])
+    return (name, small, o2[0] if o2 else obad[0])
+
+
 def correspondence(ck, scripts, what, oracle=True, extra_oracle=None):
     """run scripts through implementation and model; on mismatch search for a failing input.
     Returns (impl_out, model_out, n_bad)"""
@@ -89,6 +116,32 @@ def correspondence(ck, scripts, what, oracle=True, extra_oracle=None):
             payload.setdefault("script", small)
             payload.setdefault("seed", ck.seed)
             ck.violation(verif.write_replay(ck.prop, name, payload), True)
+            return impl_out, model_out, len(bad)
+    if found is None and oracle and ck.prop in ESCALATE:
+        found = escalate(ck)
+    if found is None:
+        # the real code crashes, aborts or trips a sanitizer on an operation the model completes
+        def crashed(bd):
+            return [x for x in bd if x[2].startswith(("!signal", "!exit")) and not x[3].startswith("!")]
+        cr = crashed(bad)
+        # prefer a script on which the model's own result is known (a hashed policy that died inside
+        # update never reported the multipliers its model needs)
+        cr.sort(key=lambda x: "multiplier stream exhausted" in x[3])
+        if cr:
+            name = cr[0][0]
+
+            def still_crashes(ls):
+                return bool(crashed(verif.run_pair(ck.exe, [(name, ls)])[2]))
+            small = verif.shrink(by_name[name], still_crashes)
+            io, mo, bd, _ = verif.run_pair(ck.exe, [(name, small)])
+            c2 = crashed(bd) or cr
+            path = verif.write_replay(ck.prop, name, {
+                "property": ck.prop,
+                "kind": "failing input: the implementation crashes, aborts or trips a sanitizer on an operation that the model completes",
+                "seed": ck.seed, "script": small, "at_line": c2[0][1], "implementation": c2[0][2], "model": c2[0][3],
+                "how_to_replay": "python3 tools/verif.py replay <this file>",
+            })
+            ck.violation(path, True)
             return impl_out, model_out, len(bad)
     if found:
         name, small, detail = found
@@ -121,6 +174,23 @@ def count_lines(outs, prefix):
 # ----------------------------------------------------------------------------------------------------
 # the dispatch family: C01 C02 C03 C04 C06 C08 C17
 
+def two_phase(rng, lines):
+    """the same registrations made in two instalments with an update after each (a program that loads a
+    module later): all the classes and some of the methods first, the other methods afterwards"""
+    k = lines.index("update")
+    pre, post = lines[:k], lines[k + 1:]
+    keys = sorted({int(l.split()[1]) for l in pre if l.startswith("method ")})
+    first = set(rng.sample(keys, rng.randint(0, max(0, len(keys) - 1)))) if keys else set()
+
+    def key_of(l):
+        t = l.split()
+        return int(t[1]) if t[0] in ("method", "def", "call", "callnext") else None
+    a = [l for l in pre if key_of(l) is None or key_of(l) in first]
+    b = [l for l in pre if key_of(l) is not None and key_of(l) not in first]
+    calls1 = [l for l in post if l.split()[0] in ("call", "callnext") and key_of(l) in first]
+    return a + ["update"] + calls1[:60] + b + ["update"] + post
+
+
 def gen_dispatch_scripts(ck, n, policies=None, styles=None, shapes=None, emphasis=None, dump=True, callnext=True):
     rng = random.Random(ck.seed * 7919 + hash(ck.prop) % 1000)
     rng = random.Random((ck.seed, ck.prop, "dispatch").__repr__())
@@ -141,6 +211,9 @@ def gen_dispatch_scripts(ck, n, policies=None, styles=None, shapes=None, emphasi
         style = rng.choice(styles or gen.STYLES)
         lines, meta = gen.emit_script(rng, reg, pol, style=style, dump=dump, callnext=callnext)
         name = "g%d-%s-%s-%s" % (i, pol, style, reg.family)
+        if rng.random() < 0.12:
+            lines = two_phase(rng, lines)
+            name += "-2ph"
         scripts.append((name, lines))
         st = reg.stats()
         st.update(policy=pol, style=style, calls=meta["calls"])
@@ -1668,13 +1741,29 @@ def check_C20(ck):
         holes = sorted({(rng.randrange(nl), rng.randrange(nr)) for _ in range(rng.randint(0, nl * nr // 2))})
         cases.append((nl, nr, holes))
     # both sides of the 512-element split of aggregate
-    big = [(23, 23, [(0, 0), (22, 22), (11, 5)])] if ck.tier == "quick" else [(22, 23, []), (23, 23, [(3, 4)]), (24, 22, [(0, 0)]), (32, 33, [(31, 32), (7, 7)])]
+    big = [(23, 23, [(0, 0), (22, 22)])] if ck.tier == "quick" else [(22, 23, []), (23, 23, [(3, 4)]), (24, 22, [(0, 0)]), (32, 33, [(31, 32), (7, 7)])]
     cases += big
     programs = [("ud%d" % i, hprog.prog_use_definitions(nl, nr, holes)) for i, (nl, nr, holes) in enumerate(cases)]
-    res = hprog.build_and_run(programs, jobs=16)
+    # aggregate on its own, around every level of the 512-element split (odd and even sizes)
+    agg_sizes = [0, 1, 2, 511, 512, 513, 514, 1025, 1026, 1027, 2051] + ([] if ck.tier == "quick" else [1023, 1024, 1539, 3001, 4099])
+    agg_programs = [("agg%d" % n_, hprog.prog_aggregate(n_)) for n_ in agg_sizes]
+    res = hprog.build_and_run(programs + agg_programs, jobs=16)
     scripts = [("ud%d" % i, ["use-defs %d %d %s" % (nl, nr, " ".join("%d:%d" % h for h in holes))]) for i, (nl, nr, holes) in enumerate(cases)]
-    model = verif.run_model(scripts)
+    agg_scripts = [("agg%d" % n_, ["aggregate %d" % n_]) for n_ in agg_sizes]
+    model = verif.run_model(scripts + agg_scripts)
     bad = 0
+    for (name, _), n_ in zip(agg_scripts, agg_sizes):
+        rc, so, se = res[name]
+        got, want = so.splitlines(), model.get(name, [])
+        if rc != 0 or got != want:
+            bad += 1
+            if not ck.violations:
+                found = rc == 0 and bool(got) and ("missing=[]" not in got[0] or "twice=[]" not in got[0])
+                path = verif.write_replay("C20", name, {
+                    "property": "C20", "kind": ("failing input: aggregate of %d elements does not construct every element exactly once" % n_) if found else
+                                               "correspondence broken: generated program and model differ (or the program does not compile / crashed)",
+                    "program_output": got[:2], "model": want[:2], "rc": rc, "stderr": se[-1500:], "program": "tools/hprog.py prog_aggregate(%d)" % n_})
+                ck.violation(path, found)
     for (name, lines), (nl, nr, holes) in zip(scripts, cases):
         rc, so, se = res[name]
         got = so.splitlines()
@@ -1698,7 +1787,9 @@ def check_C20(ck):
         "programs": len(cases), "disagreements_checked": bad,
         "rule": "generated programs: a 2-method over Base with leaf classes L<i>, R<j>, a definition template specialised to not_defined on a random subset, "
                 "use_definitions over product<types<M>, Ls, Rs>; the program prints the compile-time product in order, the definitions found in the method's "
-                "catalog and the result of dispatching through every combination; the model predicts all three. Sizes 1..7 per list plus products on both sides of the 512 split",
+                "catalog and the result of dispatching through every combination; the model predicts all three. Sizes 1..7 per list plus products on both sides of the 512 split (with an odd number of kept combinations); "
+                "plus aggregate alone over n trivial elements for n around every level of the split, counting constructions per element",
+        "aggregate_sizes": agg_sizes,
         "largest_product": max(c[0] * c[1] for c in cases),
         "traces_validated_against_impl": len(cases),
         "samples": [{"lists": [c[0], c[1]], "not_defined": c[2]} for c in cases[:3]],
@@ -1749,9 +1840,10 @@ def check_C16(ck):
         pass
     ck.coverage = proof_coverage(ck, ["C16"], {
         "evaluations": len(runs), "distinct_nontrivial": len(runs),
-        "rule": "harness/tsan/tsan.cpp built with -fsanitize=thread: N threads x four policies (release-like hash, checked hash, v-table pointer map, "
-                "indirect v-table pointers) dispatching through references, virtual_ptr (constructed, copied, final), virtual_shared_ptr and resolve(), "
-                "while another thread updates a fifth policy 40 times; a TSan report or a per-thread result different from the sequential one is a "
+        "rule": "harness/tsan/tsan.cpp built with -fsanitize=thread: N threads x five policies (release-like hash, checked hash, v-table pointer map, "
+                "indirect v-table pointers, v-table pointer map over std::map) dispatching through references, virtual_ptr (constructed, copied, final), "
+                "virtual_shared_ptr and resolve(), while another thread updates two unrelated policies 40 times each, one of them obtained by rebind from "
+                "a policy the other threads are using (its facets must be re-keyed on the new policy: checked); a TSan report or a per-thread result different from the sequential one is a "
                 "violation. Every run is non-trivial (>= 4 threads on shared tables). The write-effect table of the call path is re-extracted from clang's AST and checked by the kernel",
         "runs": runs, "call_path_effects": [list(e) for e in eff], "traces_validated_against_impl": len(runs),
         "samples": runs[:1],
@@ -1775,8 +1867,14 @@ def check_C11(ck):
     policies = ["default"] if ck.tier == "quick" else ["default", "::yorel::yomm2::policy::debug", "::yorel::yomm2::policy::release"]
     cases = [(s, p) for s in hprog.SHAPES for p in policies]
     programs = [("args-%s-%d" % (s, i), hprog.prog_args(s, p)) for i, (s, p) in enumerate(cases)]
-    res = hprog.build_and_run(programs, jobs=16)
     scripts = [("args-%s-%d" % (s, i), ["thunk-expect " + s]) for i, (s, p) in enumerate(cases)]
+    # several most derived classes through one definition on an intermediate class with a virtual base
+    for p in policies:
+        i = len(cases)
+        cases.append(("vfork", p))
+        programs.append(("args-vfork-%d" % i, hprog.prog_vfork(p)))
+        scripts.append(("args-vfork-%d" % i, ["thunk-expect-fork"]))
+    res = hprog.build_and_run(programs, jobs=16)
     model = verif.run_model(scripts)
     known = [k for k in verif.load_known() if k.get("property") == "C11" and k.get("status") == "open"]
     known_still = 0
@@ -1799,7 +1897,7 @@ def check_C11(ck):
                     "property": "C11", "kind": ("failing input: a definition did not receive the caller's argument as specified" if found else
                                                 "the generated program does not compile, crashed, or differs in shape from the model"),
                     "shape": s, "policy": p, "differences(program, required)": diff, "rc": rc, "stderr": se[-1500:],
-                    "program": "tools/hprog.py prog_args(%r, %r)" % (s, p)})
+                    "program": ("tools/hprog.py prog_vfork(%r)" % p) if s == "vfork" else ("tools/hprog.py prog_args(%r, %r)" % (s, p))})
                 ck.violation(path, found)
         # known finding: by-value moves; anything else in those lines must still be as required
         for a, b in zip(gk, wk):
@@ -1818,7 +1916,8 @@ def check_C11(ck):
         ck.known_observed = {k.get("witness") for k in known}
     ck.coverage = proof_coverage(ck, ["C11"], {
         "evaluations": len(cases), "distinct_nontrivial": len(cases), "programs": len(cases), "disagreements_checked": len(ck.violations),
-        "rule": "one generated program per inheritance shape (single, second base at non-zero offset, virtual base, three levels, virtual + levels) x policy; each "
+        "rule": "one generated program per inheritance shape (single, second base at non-zero offset, virtual base, three levels, virtual + levels) x policy, plus one "
+                "where objects of four most derived classes with different layouts go in turn through definitions on an intermediate class with a virtual base; each "
                 "instantiates 12 methods with the virtual parameter kinds (reference, const reference, rvalue reference, pointer, shared_ptr, const shared_ptr&, "
                 "virtual_ptr, virtual_shared_ptr by value and by const reference) at positions 0 and 1, and 6 methods with non-virtual categories (by value from "
                 "prvalue / xvalue / lvalue, lvalue reference, rvalue reference, move-only, returned value and reference); inside the definitions the address as the "
